@@ -55,3 +55,9 @@ package controllers
 //@ func (*UpstreamClusterController).checkUpstreamServerNameConflict props C11
 //@   modifies nothing
 //@   loop 0: invariant [t] true
+
+// The deferred cleanup of a failed bootstrap must not crash the worker: CreateClusterInfo returns a nil ClusterInfo with
+// its error (C16: an accepted object whose endpoint does not parse must not bring the gateway down).
+//@ func (*UpstreamClusterController).syncUpstreamCluster$1 props C16
+//@   panics-never
+//@   modifies *
